@@ -113,6 +113,13 @@ def templates(tier="quick"):
         ops = [ninja_op(j=1), {"op": "write", "path": "obj.d", "content": text, "label": "obj.d:=" + repr(text)}]
         add("depfile_names_its_own_target_" + nm, [v0], ["obj", "exe"], extra_ops=ops, init=[0, 1], depth=1, tags=["discovered"])
 
+    # deps = gcc: the tool's depfile names an implicit output of the statement itself (`out: side in` for `build out | side`):
+    # the record closes a cycle that the next build has to report
+    o = Stmt("obj", iouts=["side"], ex=["src"], hidden=["hdr", "hdr2"], deps="gcc")
+    o.dep_spell = {"hdr2": "side"}
+    add("recorded_dependency_is_an_output_of_the_statement_itself", [Variant("v0", [o, Stmt("exe", ex=["obj"])])], ["obj", "exe"],
+        extra_ops=[ninja_op(j=1)], init=[0], depth=1, tags=["discovered"])
+
     # dyndep-closed cycle: the dyndep file adds an input that depends on the statement itself
     dd = dyndep_text([("out", [], ["circ"], False)])
     stm = [Stmt("dd", ex=["dd.in"], copy=True), Stmt("out", ex=["in"], oo=["dd"], dyndep="dd", extra_reads=["circ"]),
